@@ -64,7 +64,7 @@ add("C09", "proof",
 
 add("C01", "other",
     "Deductive obligations (all inputs) on the real signing and verification paths: memory safety for every length, signature layout (length 2180+32h, index field = consumed index), index automaton, frames; plus a bounded, exhaustive-over-indices evaluation of the BDS traversal invariant on the REAL traversal code with node labels (every index of every even height 4..20 in the quick tier, ..24 thorough, ..30 with VERIF_FULL=1; only hashH/genLeafWOTS bodies are spliced mechanically on each run) and, with the real hashes, sign->verify at every index of height 4 (6 thorough) for all three hash functions.",
-    "Level 'other' = deductive parts + bounded stand-in. The traversal invariant is NOT proved for symbolic height; the functional WOTS/L-tree/Merkle-fold contracts (DESIGN.md C01 links 2-5) are not yet discharged. Evidence lists the bounded runs under 'bounded', outside obligations/discharged.",
+    "Level 'other' = deductive parts + bounded stand-in. The traversal invariant is NOT proved for symbolic height. The functional WOTS+/L-tree/Merkle-fold contracts are discharged on the verification side (see C04) and for wotsSign / wOTSPKGen on the signing side, with the chain composition lemma; the lemma function composing them into 'the public key recovered from a fresh WOTS+ signature is the generated one' is written but parked (not claimed). Evidence lists the bounded runs under 'bounded', outside obligations/discharged.",
     "contract-based deductive verification of the real code for safety/layout/index clauses; bounded run-time evaluation of the stated traversal contract where no inductive proof is attempted",
     "DESIGN.md section 4 C01")
 add("C08", "other",
@@ -86,7 +86,7 @@ add("C04", "proof",
     "DESIGN.md section 4 C04")
 add("C06", "other",
     "Deductive (all inputs): each hash construction, address/toByte serialisation, seed derivation, key-generation seed expansion and layout, and the signing-side wiring equals its RFC 8391/QRL specification over uninterpreted hash primitives; Verify == VerifyWithCustomWOTSParamW(16). Bounded (labelled): byte-identity of public key and every signature with an independent full-Merkle-tree reference implementation for heights 4 (quick) / 4,6,8 (thorough), three hash functions; label run of the traversal as in C01.",
-    "Level 'other' = proved per-call constructions and wiring + bounded whole-object comparison. The recursive WOTS-chain / L-tree / Merkle-tree structure is not under a recursive functional specification.",
+    "Level 'other' = proved constructions, wiring and recursive specifications (WOTS+ chains, base-w digits and checksum, L-tree, Merkle fold; verification side complete, signing side wotsSign / wOTSPKGen) + bounded whole-object comparison. Not under a recursive specification: the tree nodes computed by treeHashSetup / the BDS traversal.",
     "contract-based deductive verification of the hash constructions and wiring on the real code; bounded differential run against an independent reference implementation, labelled bounded",
     "DESIGN.md section 4 C06")
 
